@@ -103,6 +103,9 @@ def case_prog(case, K=2, W=32):
 
 
 def run(chk):
+    from .. import runner as _runner
+
+    _runner.CASE_TIMEOUT_S = min(_runner.CASE_TIMEOUT_S, 30)  # a pass that does not terminate on an input is a rejected input
     quick = chk.tier == "quick"
     progs, n_exh = ac.program_set(chk.tier, chk.seed + 1)
     K = 3 if quick else 4
